@@ -263,6 +263,47 @@ prop("C08", "conccheck",
      level_text="Schedule-as-input exploration of the Open/Close race window on real instances.",
      level_note=SEMI_NOTE)
 
+prop("C11", "nitrocheck",
+     [dict(name="TestC11", quick=3, thorough=6, thorough_shards=16)],
+     level="fault_enumeration",
+     rule="Each case generates a database (0-20 items quick, up to 150 thorough; key styles: sequential ASCII, pseudo-random hex, zero-led binary that looks like length "
+          "prefixes; bytes/KV comparator; delta interleaving on with real delta content produced by deletes+collection during the backup, or off), stores it once, and then "
+          "applies faults in place to the real backup directory (undone after each load): for every file (nitro.json, data/files.json, data/checksums.json, every data shard, "
+          "delta manifests and shards) removal, truncation to every length and at every byte offset XOR 0x01/0x80/0xFF and set-to-0 (quick: every 8th offset of files > 64 "
+          "bytes, drawn phase; thorough: all), load concurrency rotating over 1/2/16/17, plus multi-fault sets damaging >= concurrency shard files at once. Oracle per fault: "
+          "LoadFromDisk (in a goroutine with recover) returns an error or a snapshot whose scan and Count equal the stored content; a hang is declared only when the load is "
+          "provably blocked (its goroutines parked on channel/WaitGroup operations, nobody reading) after 5 s + 3 s; a load that is still computing (gigabyte allocation "
+          "from a damaged length prefix) is waited for, and counted as inconclusive after 10 minutes. Flips of the most significant length-prefix byte to >= 0x40 "
+          "(2-4 GiB allocations) are sampled (2 per base quick, 8 thorough), everything else is enumerated. evaluations = faults applied; every applied fault changes bytes "
+          "the loader reads, so each is non-trivial; distinct = hash of (base description, fault, concurrency).",
+     technique="fault enumeration over generated backups (byte flips, truncations, removals, multi-fault sets) with an error-or-exact oracle",
+     design_ref="DESIGN.md §3 C11",
+     level_text="Systematic single-fault enumeration on real backup directories of generated databases plus generated multi-fault sets; exhaustive only for the bases and "
+                "fault classes named in the rule.",
+     level_note="Process-level crashes inside nitro's own restore goroutines cannot be recovered by the harness: they kill the test process and are reported as a violation "
+                "with the log. Only Go-managed memory is used here (a damaged length makes the loader allocate gigabytes).",
+     timeout_quick=1200, timeout_thorough=7200)
+
+prop("C12", "nitrocheck",
+     [dict(name="TestC12Limit", quick=8, thorough=40, thorough_shards=8),
+      dict(name="TestC12Crash", quick=40, thorough=300, thorough_shards=8)],
+     level="fault_enumeration",
+     rule="Generated databases (0-60 items incl. padded large ones, bytes/KV comparator, delta on/off, DiskBlockSize 512K/64/16, store concurrency 1-4). "
+          "(a) TestC12Limit: in-process RLIMIT_FSIZE (SIGXFSZ ignored) set to L around StoreToDisk so that every write growing a file beyond L bytes fails; L enumerated over "
+          "0..largest-file-size+1 when that is <= 700 bytes (every byte budget at which some write fails), else 300 drawn limits; oracle: StoreToDisk returns an error, or "
+          "returns nil and LoadFromDisk of the directory yields exactly the stored snapshot. Non-trivial: L below the largest file (>=1 write really failed). "
+          "(b) TestC12Crash: store concurrency 1; verif yield points after every file-system mutation of StoreToDisk and of the file writer's Close (mkdir, each file opened, "
+          "each item written, each manifest written, terminator/flush/close of each file) copy the directory = the image a dying process leaves; for each manifest additionally "
+          "the created-but-empty and half-written states; in delta mode deletes+collection run from the item callback so delta files have content; oracle for every image: "
+          "LoadFromDisk returns an error or exactly the stored snapshot (hang only if provably blocked). Non-trivial: image differs from its predecessor. "
+          "evaluations = limits tried + images loaded; distinct = hash of (database, limit) / (database, image content digest).",
+     technique="fault injection by enumeration: failing writes at every byte budget (RLIMIT_FSIZE) and crash images at every file-system mutation boundary",
+     design_ref="DESIGN.md §3 C12",
+     level_text="Enumerates the byte budgets and the mutation boundaries of real backups of generated databases.",
+     level_note="The file size limit fails writes per file (a full disk fails them globally); crash images model process death (data handed to the kernel survives), not power loss. "
+                "TestC12Limit changes a process-wide limit and therefore runs alone in its process.",
+     timeout_quick=900)
+
 NOT_APPLICABLE = {}
 
 ENGINES = [
